@@ -664,7 +664,16 @@ func (m *maker) hostileEthTx(kind string) ([]byte, string) {
 		goodData = append(append(append([]byte{}, ercRedeemSig...), word(big.NewInt(5))...), ethcmn.LeftPadBytes(sim.TestTokenContract.Bytes(), 32)...)
 	}
 	other := ethcmn.HexToAddress("0x99")
-	switch m.pick(22, "ethshape") {
+	switch m.pick(24, "ethshape") {
+	case 22:
+		// the method selector once more, earlier in the raw bytes: as the tail of the receiving address
+		to := *contract
+		copy(to[16:], goodData[:4])
+		return legacy(&to, big.NewInt(1000), goodData), "eth-selector-in-to-address"
+	case 23:
+		// ... or inside the value
+		v := new(big.Int).SetBytes(append(append([]byte{1}, goodData[:4]...), 0, 0))
+		return legacy(contract, v, goodData), "eth-selector-in-value"
 	case 0:
 		return m.s.Bytes(120, "ethrnd"), "eth-random-bytes"
 	case 1:
